@@ -667,4 +667,24 @@ theorem plan_overflow_le (c : Core) (gpus : List Gpu) :
   repeat' split
   all_goals omega
 
+/-! ## Part 3: the scheduler's free-memory adjustment -/
+
+theorem adjust_le_free (p : Nat) (g : SGpu) : adjust p g ≤ g.free := by
+  unfold adjust
+  split
+  · omega
+  · split <;> omega
+
+/-- after the adjustment, adjusted free + predicted usage fits in the total memory -/
+theorem adjust_le_total (p : Nat) (g : SGpu) (h : p ≤ g.total) : adjust p g + p ≤ g.total := by
+  unfold adjust
+  split
+  · omega
+  · split <;> omega
+
+theorem updateFree_length (gpus : List SGpu) (runners : List Runner) :
+    (updateFree gpus runners).length = gpus.length := by
+  unfold updateFree
+  split <;> simp
+
 end OllamaVerif.Memory
